@@ -99,7 +99,7 @@ PLAN["C16"] = {
     "parts": [{"engine": "schedsim", "quick": 30000, "thorough": 2500000, "quick_wall": 150}],
     "nontrivial": ">=1 task was parked inside a RIB mutator while another task ran, or the scenario's release order decided more than 4 scheduling points",
     "fault_note": "schedule fault = which parked task is released at each yield point (before every FIB/RIB lock acquisition, inside every critical section - where the hook also probes that the lock the section needs is really held, and on arrival at a lock whether it is already held: re-entrancy - between the steps of face removal, between a lookup's return and the use of its result); endpoint fault = face teardown racing with registrations and lookups",
-    "components": {"real": ["fw/table RibTable (AddEncRoute, RemoveRouteEnc, CleanUpFace)", "fw/table FibStrategyTree / FibStrategyHashTable incl. their RWMutex", "fw/face Table.Remove", "fw/dispatch face map"], "stub": ["the threads themselves: management thread, face send goroutines and forwarding threads are represented by simulated tasks that issue the same table calls"]},
+    "components": {"real": ["fw/table RibTable (AddEncRoute, RemoveRouteEnc, CleanUpFace)", "fw/table FibStrategyTree / FibStrategyHashTable incl. their RWMutex", "fw/face Table.Remove", "fw/dispatch face map", "fw/fw Thread.processIncomingInterest / processIncomingData (called synchronously by fwd operations; /localhost names in a third of them)"], "stub": ["the threads themselves: management thread, face send goroutines and forwarding threads are represented by simulated tasks that issue the same table calls (a fifth of the lookup operations run the whole incoming-Interest and incoming-Data pipeline of a real fw.Thread on the task instead)"]},
     "assumptions": ["memory races between two yield points that change no observable result are not visible to a one-at-a-time scheduler (the Go race detector cannot be combined with it)", "porcupine verdict Unknown (time-out) is counted, never reported"],
     "technique": "deterministic simulation: cooperative seeded scheduler over real goroutines parked at lock/yield hooks, recorded history checked for linearizability with porcupine against a sequential reference model",
 }
